@@ -103,6 +103,8 @@ def run(tier):
     times = {}
     static_out = {'returned_all_satisfied': 0, 'reported_infeasible_system': 0, 'reported_feasible_system(known finding)': 0, 'other': 0}
     inv_states = [0, 0]   # model states on which the proved invariants were evaluated, ops with a failing state
+    sinv = {'dag_instances': 0, 'dag_states': 0, 'dag_failing': 0, 'dag_all_slack_nonneg_after_merge_pass': 0,
+            'cyclic_instances': 0, 'cyclic_states': 0, 'cyclic_heap_or_act_inv_failing': 0}
     for label, impl, insts, enum in sets:
         real, drv, errs, dts = L.run_batch(insts, impl, tag='c01' + label, enum=enum)
         byid0 = {i['id']: i for i in insts}
@@ -161,6 +163,16 @@ def run(tier):
                 corr[s] += 1
                 if s == 'diff':
                     diffs.append({'set': label, 'impl': impl, 'instance': L.ins_json(ins), 'replay_input': L.replay_text(ins), 'detail': det})
+            for jv in ((d or {}).get('j') or {}).values():
+                if jv['dag']:
+                    sinv['dag_instances'] += 1
+                    sinv['dag_states'] += jv['states']
+                    sinv['dag_failing'] += 1 if (jv['mask'] or not jv['allsat'] or not jv['same']) else 0
+                    sinv['dag_all_slack_nonneg_after_merge_pass'] += 1 if jv['allsat'] else 0
+                else:
+                    sinv['cyclic_instances'] += 1
+                    sinv['cyclic_states'] += jv['states']
+                    sinv['cyclic_heap_or_act_inv_failing'] += 1 if ((jv['mask'] & 3) or not jv['same']) else 0
             if ins['kind'] == 'S' and impl == 'vpsc' and rs:
                 # the static Solver against the extracted Vpsc/StaticModel.v (exact pairing heaps, time stamps, total order)
                 s, det = L.eval_corr_static(ins, rs, d)
@@ -230,6 +242,11 @@ def run(tier):
                                                  'VpscForest.v, VpscTrichotomy.v, VpscStats.v) evaluated by the extracted model on every state it visits: after '
                                                  'moveBlocks, after each block of splitBlocks, after each iteration of the satisfy loop, after each op; a failure is '
                                                  'reported as a correspondence difference'},
+                    'model_invariants_static_solver': dict(sinv, what='Vpsc/StaticInvB.v evaluated by the extracted static model on every state of the merge pass of '
+                                                           'Solver::satisfy (after every iteration of mergeLeft and after every variable of the total order): heap_ok and act_inv '
+                                                           '(proved, all multigraphs); on DAGs also the unproved content of static_no_throw_on_dag: every constraint between processed '
+                                                           'variables has slack >= 0 EXACTLY, processed variables never move right, the heap root is a most violated in-constraint, every '
+                                                           'violated in-constraint is in the heap, and every slack >= 0 after the pass; a failure is reported as a correspondence difference'),
                     'oracle': {'violations': len(oracle_viol) - known_hits, 'runs_with_flagged_constraints': flagged_runs, 'detector_answers': det_stats},
                     'static_solver_outcomes': static_out,
                     'set_times_s(harness,driver)': times, 'machinery_errors': errors[:5]})
@@ -274,15 +291,25 @@ META = {
                 'C01_no_final_throw_weight_history, C01_sat_on_return_weight_history; op SetWeight is a wrapper step_w around step, Vpsc/VpscModelW.v), '
                 'C01_no_final_throw / C01_step_never_throws (satisfy/solve never return the final-scan throw; OutOfFuel excluded), C01_no_division_by_zero '
                 '(A2 > 0 and A2 = sum over the block in every reachable state); the boolean versions of these invariants are evaluated by the extracted model on '
-                'every state it visits on every run (evidence key model_invariants). '
+                'every state it visits on every run (evidence key model_invariants). (5) C01_flag_sound (Vpsc/VpscFlag.v): in every state of every '
+                'inequality-only history a flagged constraint implies infeasibility - Block::isActiveDirectedPathBetween is sound and complete for directed paths of '
+                'active constraints, the violated constraint closes a walk of positive total gap accepted by the verified closed_walk_ok, and the other flagging '
+                'site (no split constraint / UnsatisfiableException) is unreachable without equalities; C01_flagged_iff_infeasible_on_return. '
                 'The tie to /repo is the extracted model run against libvpsc and the libavoid copy on every run, plus the verified oracles deciding '
                 'every real solve()/satisfy() return (unflagged => satisfied to 1e-6, finite, inequality-only: flagged <=> positive cycle).',
         'design_ref': 'DESIGN.md 5.1, Appendix A'},
     'level_note': 'Trusted: Coq kernel; extraction (ExtrOcamlBasic) + OCaml driver; C++ harness; exact-rational model of binary64 (ties detected and '
                   'counted). Not proved: termination of satisfy()/solve(); that the real code refines the model (checked by correspondence on every run, '
-                  'not proved); C01_flag_sound (flagged => infeasible) for the model is not proved (decided per run by the verified positive-cycle detector). '
-                  'Static Solver: verified oracles only (no model); domain = all multigraphs, report = thrown UnsatisfiedConstraint (legitimate iff the verified '
-                  'detector finds a positive cycle; a throw on a feasible cyclic system is the known finding static_solver_throws_on_feasible_cycle). '
+                  'not proved). C01_flag_sound (flagged => infeasible, inequality-only systems, every history) is proved for the model in Vpsc/VpscFlag.v: the '
+                  'directed-path site closes an explicit positive closed walk, the no-split-constraint site is unreachable without equalities '
+                  '(C01_flag_sound, C01_flagged_iff_infeasible_on_return); the verified positive-cycle detector still decides every real run. '
+                  'Static Solver: verified oracles (domain = all multigraphs, report = thrown UnsatisfiedConstraint, legitimate iff the verified '
+                  'detector finds a positive cycle; a throw on a feasible cyclic system is the known finding static_solver_throws_on_feasible_cycle) AND the '
+                  'executable model Vpsc/StaticModel.v (shape-exact pairing heaps under CompareConstraints, block / constraint time stamps, DFS total order, '
+                  'mergeLeft / mergeRight / split / refine) compared exactly with vpsc::Solver on every static instance (evidence correspondence_static_solver); '
+                  'proved for it: C01_static_satisfy_sat (return => book, act_inv, slack >= -1e-10, active constraints exactly tight; all multigraphs), '
+                  'C01_static_solve_sat_declarative; static_no_throw_on_dag only partially (C01_static_no_throw_on_dag_partial; its order argument is evaluated '
+                  'on every visited state of every DAG instance, evidence model_invariants_static_solver). '
                   'Weight histories: the block-statistics invariant (all_ok) is not proved for them (stale sums in deleted blocks); its weight-independent part '
                   '(A2 > 0, posn = (AD-AB)/A2) is evaluated on every visited model state (all_invb_w).',
     'technique': 'Coq proof of verified oracles and model invariants + extracted-model correspondence against libvpsc and libavoid/vpsc.cpp',
